@@ -157,7 +157,7 @@ func readXRefTable(xref map[uint32]*xRefEntry, s *scanner) (Dict, error) {
 		return nil, err
 	}
 
-	for {
+	for subsection := 0; ; subsection++ {
 		buf, err := s.PeekN(1)
 		if err != nil {
 			return nil, err
@@ -187,7 +187,7 @@ func readXRefTable(xref map[uint32]*xRefEntry, s *scanner) (Dict, error) {
 			return nil, err
 		}
 
-		err = decodeXRefSection(xref, s, uint32(start), uint32(start+length))
+		err = decodeXRefSection(xref, s, uint32(start), uint32(start+length), subsection == 0)
 		if err != nil {
 			return nil, err
 		}
@@ -212,7 +212,11 @@ func readXRefTable(xref map[uint32]*xRefEntry, s *scanner) (Dict, error) {
 	return s.ReadDict()
 }
 
-func decodeXRefSection(xref map[uint32]*xRefEntry, s *scanner, start, end uint32) error {
+// decodeXRefSection reads the entries of one subsection.  The flag first
+// tells whether this is the first subsection of its table; only there can a
+// subsection starting at 1 be the known "table numbered from 1 instead of 0"
+// defect rather than a legitimate subsection following one for object 0.
+func decodeXRefSection(xref map[uint32]*xRefEntry, s *scanner, start, end uint32, first bool) error {
 	offByOne := uint32(0)
 	for i := start; i < end; i++ {
 		if xref[i] != nil {
@@ -249,7 +253,7 @@ func decodeXRefSection(xref map[uint32]*xRefEntry, s *scanner, start, end uint32
 		}
 
 		// fix an error seen in some PDF files
-		if i == start && start == 1 && a == 0 && b == maxGeneration {
+		if first && i == start && start == 1 && a == 0 && b == maxGeneration {
 			offByOne = 1
 		}
 
